@@ -51,8 +51,9 @@ def run(tier):
     if old.rc != 12:
         raise common.ToolError("Reclaim.tla does not refute the alias-on-read / release-before-promote discipline (model not discriminating)")
     tally.add_tlc("Reclaim(model of the ownership protocol)", mc)
-    for module, env in profiles(tier):
-        r = le.generate(module, env=env, timeout=2400)
+    for module, env in profiles(tier) + [("GenArrCases", {})]:
+        r = le.generate(module, env=env, timeout=2400, cfg="lang/GenArrCases.cfg" if module == "GenArrCases" else "lang/MCGen.cfg",
+                        coverage=module != "GenArrCases")
         tally.add_tlc(module, r)
         judged = le.replay(r.records, modes=["nn", "fn"], ev=1, compare_events=True)
         tally.add(judged)
